@@ -671,6 +671,10 @@ func runC07Closing(rev int, PI, PT time.Duration, r *rep.Report) (key, msg strin
 func TestC07(t *testing.T) {
 	r := rep.New(t, "C07")
 	defer r.Flush()
+	if r.Lane == 1%r.Lanes {
+		// peers that have stopped reading, then the session ends (real time, judged at rest)
+		stalledEndings(r, r.N(4, 64))
+	}
 	r.Rule("virtual-time sessions: PI, PT in {1 ms .. 25 s} incl. equal / PI<PT / PT<PI x transport x revision x 1-6 heartbeat rounds with the client's answer placed at 0, PT/2, PT-1ns, PT, PT+1ns, never, duplicated, unsolicited (v4) or client pings at fractions of PI+PT incl. exactly PI+PT (v3), with and without concurrent traffic; offline checker over exact virtual timestamps of ping packetCreate, heartbeat and close events; plus sessions that are gracefully closing with a buffered packet and a silent client (expiry still exact), plus the heartbeat of sessions that completed an upgrade (one more exchange on the new transport, then silence: expiry exact), wrong-direction heartbeats and a session whose upgrade transport was opened with another EIO value; distinct = (revision, transport, PI/PT relation, rounds)")
 	r.Assume("a pong (v4) or ping (v3) processed at exactly the deadline instant may legitimately go either way; every other instant is exact")
 	r.Assume("the instant a ping is 'sent' is its packetCreate event; on polling it may wait in the buffer for the next poll")
